@@ -175,7 +175,10 @@ where
                 }
             }
             Ok(None) => {
-                if disconnect.is_some() && !self.shared.is_disconnect_sent() {
+                if disconnect.is_some()
+                    && (proto_error || !self.shared.is_disconnect_recv())
+                    && !self.shared.is_disconnect_sent()
+                {
                     Ok(disconnect)
                 } else {
                     Ok(None)
